@@ -639,7 +639,7 @@ def verify_load(chk, c, dline, fline):
         zs = [z for row in d['z0'] for z in row] if d['fz0'] else d['z0']
         zo = [z for row in c['orig']['z0'] for z in row] if d['fz0'] else c['orig']['z0']
         for a, e in zip(zs, zo):
-            if abs(a - e) > 2 * tol_rel(min(p, 15)) * abs(e) + 1e-12 * abs(e) and p > 1:
+            if not abs(a - e) <= 2 * tol_rel(min(p, 15)) * abs(e) + 1e-12 * abs(e) and p > 1:
                 return 'z0', 'impedance loaded as %r, saved %r' % (a, e)
         chk.count('npd_load_ok')
         return None
@@ -650,11 +650,11 @@ def verify_load(chk, c, dline, fline):
     if d['rows'] != obj['ports'] or d['cols'] != obj['ports'] or d['nf'] != obj['nf']:
         return 'dims', 'loaded %dx%dx%d' % (d['rows'], d['cols'], d['nf'])
     for q in range(obj['ports']):
-        if abs(d['z0'][q] - F['z0'][q]) > 1e-12 * abs(F['z0'][q]):
+        if not abs(d['z0'][q] - F['z0'][q]) <= 1e-12 * abs(F['z0'][q]):
             return 'z0', 'reference of port %d loaded as %r, the file says %r' % (q + 1, d['z0'][q], F['z0'][q])
     exact = c['dp'] >= MAXP and F['fmt'] == 'ri' and tname == obj['type'] and (c['kind'] == 'ts2' or tname == 's')
     for k in range(obj['nf']):
-        if abs(d['freqs'][k] - F['freqs'][k]) > 1e-13 * abs(F['freqs'][k]):
+        if not abs(d['freqs'][k] - F['freqs'][k]) <= 1e-13 * abs(F['freqs'][k]):
             return 'frequency', 'frequency %d loaded as %r, the file says %r' % (k, d['freqs'][k], F['freqs'][k])
         sc = max([abs(x) for row in F['data'][k] for x in row] + [1e-300])
         for a in range(obj['ports']):
